@@ -204,12 +204,14 @@ func init() {
 			if s.n < 0 {
 				m.targetPanic("sync: negative WaitGroup counter")
 			}
+			m.hbRelease(s, "wg")
 			m.preemptPoint()
 			return nil
 		},
 		"(*sync.WaitGroup).Wait": func(m *Machine, c *frame, fn *ssa.Function, a []value) value {
 			s := m.wgOf(a[0].(*value))
 			m.block(func() bool { return s.n == 0 }, "WaitGroup.Wait")
+			m.hbAcquire(s, "wg")
 			return nil
 		},
 		"(*sync.Once).Do": func(m *Machine, c *frame, fn *ssa.Function, a []value) value {
@@ -220,20 +222,24 @@ func init() {
 				m.onces[p] = s
 			}
 			if s.done {
+				m.hbAcquire(s, "once")
 				return nil
 			}
 			if s.running {
 				m.block(func() bool { return s.done }, "Once.Do")
+				m.hbAcquire(s, "once")
 				return nil
 			}
 			s.running = true
 			m.call(c, 0, a[1], nil)
 			s.done = true
+			m.hbRelease(s, "once")
 			return nil
 		},
 		// sync.Pool: Get returns the most recently Put object if any (worst case for aliasing), else New()
 		"(*sync.Pool).Get": func(m *Machine, c *frame, fn *ssa.Function, a []value) value {
 			p := a[0].(*value)
+			m.hbAcquire(p, "pool")
 			if l := m.pools[p]; len(l) > 0 {
 				v := l[len(l)-1]
 				m.pools[p] = l[:len(l)-1]
@@ -252,6 +258,7 @@ func init() {
 		},
 		"(*sync.Pool).Put": func(m *Machine, c *frame, fn *ssa.Function, a []value) value {
 			p := a[0].(*value)
+			m.hbRelease(p, "pool")
 			m.pools[p] = append(m.pools[p], a[1])
 			return nil
 		},
@@ -278,6 +285,7 @@ func init() {
 				return tuple{mkConst(64, 0), m.newError(mkStr("write: file already closed or broken pipe"))}
 			}
 			b := a[1].([]value)
+			m.hbRelease("ioSync", "io")
 			f.p.buf = append(f.p.buf, b...)
 			return tuple{mkConst(64, uint64(len(b))), ifaceV{}}
 		},
@@ -300,6 +308,7 @@ func init() {
 			}
 			n := copy(b, f.p.buf)
 			f.p.buf = f.p.buf[n:]
+			m.hbAcquire("ioSync", "io")
 			return tuple{mkConst(64, uint64(n)), ifaceV{}}
 		},
 		"(*os.File).Close": func(m *Machine, c *frame, fn *ssa.Function, a []value) value {
@@ -538,7 +547,8 @@ func init() {
 type nativeObj struct{ v interface{} }
 
 func atomicAdd(m *Machine, c *frame, fn *ssa.Function, a []value) value {
-	m.preemptPoint() // an atomic operation is a synchronisation point: other goroutines may run before it
+	m.preemptPoint()
+	m.hbAcqRel(m.ptr(a[0])) // an atomic operation is a synchronisation point: other goroutines may run before it
 	p := m.ptr(a[0])
 	n := tBin("bvadd", (*p).(*Term), m.asTerm(a[1]))
 	*p = n
@@ -546,15 +556,18 @@ func atomicAdd(m *Machine, c *frame, fn *ssa.Function, a []value) value {
 }
 func atomicLoad(m *Machine, c *frame, fn *ssa.Function, a []value) value {
 	m.preemptPoint()
+	m.hbAcqRel(m.ptr(a[0]))
 	return *m.ptr(a[0])
 }
 func atomicStore(m *Machine, c *frame, fn *ssa.Function, a []value) value {
 	m.preemptPoint()
+	m.hbAcqRel(m.ptr(a[0]))
 	*m.ptr(a[0]) = a[1]
 	return nil
 }
 func atomicCAS(m *Machine, c *frame, fn *ssa.Function, a []value) value {
 	m.preemptPoint()
+	m.hbAcqRel(m.ptr(a[0]))
 	p := m.ptr(a[0])
 	if m.branch(tEq((*p).(*Term), m.asTerm(a[1]))) {
 		*p = a[2]
@@ -1000,6 +1013,7 @@ var _ = os.Getpid
 func (m *Machine) randBudgetScale() int { return 2 }
 
 func (m *Machine) syncMapOf(p *value) *mapV {
+	m.hbAcqRel(p) // every sync.Map operation synchronises with the others (adds edges only)
 	mp := m.syncMaps[p]
 	if mp == nil {
 		mp = &mapV{keyT: types.NewInterfaceType(nil, nil), elT: types.NewInterfaceType(nil, nil)}
